@@ -586,6 +586,7 @@ Record obs := mkObs {
   ob_reparse : option (option msg);    (* full snapshots only: http.Read*(Reader()) *)
   ob_records : nat;                    (* records this exchange left in the log *)
   ob_err : bool;                       (* the logger returned an error / panicked *)
+  ob_src_failed : bool;                (* the body source itself failed (Read returned a non-EOF error) *)
   ob_startline : option (bytes * bytes)
      (* first line of the snapshot / logged text, and the reference: the first
         line Write() sends for the unlogged twin (responses) or the request
@@ -624,8 +625,21 @@ Definition startline_ok (o : obs) : bool :=
   end.
 
 Definition c15_ok (skip : bool) (m : msg) (o : obs) : bool :=
-  forwarded_ok m o && sections_ok o && reparse_ok m o && skip_ok skip o && negb (ob_err o)
+  forwarded_ok m o && sections_ok o && reparse_ok m o && skip_ok skip o
+  && (negb (ob_err o) || ob_src_failed o)
   && startline_ok o.
+
+(* does the logger read the body itself (and so meets, and reports, a failing
+   body source)?  marbl only wraps it. *)
+Definition reads_body (lg : logger) (skip : bool) (m : msg) : bool :=
+  match lg with
+  | LSnap o => v_full (fst (snapshot o m))
+  | LHar c =>
+      negb skip && capture_on c m
+      && (if m_isreq m then negb ((m_cl m <=? 0) && negb (m_te m)) else true)
+  | LMarbl => false
+  | LText ho _ => negb skip && negb ho
+  end.
 
 (* first line of a snapshot *)
 Definition first_line (s : bytes) : option bytes :=
